@@ -564,6 +564,29 @@ def _branches_on_folded_value(ctx):
     return any(k in deps for k in evs)
 
 
+def _subterms(v):
+    yield v
+    if isinstance(v, Term):
+        for a in v.args:
+            for x in _subterms(a):
+                yield x
+    else:
+        l = Lin.of(v) if not isinstance(v, (int, Sym)) else None
+        if isinstance(l, Lin):
+            for c, leaf in l.terms.values():
+                for x in _subterms(leaf):
+                    yield x
+
+
+def _mentions_all(v, leaves):
+    subs = list(_subterms(v))
+    return all(x is not None and any(y is x for y in subs) for x in leaves)
+
+
+def _has_load(v):
+    return any(isinstance(x, Term) and x.op == 'load' for x in _subterms(v))
+
+
 def r054_path(be, it, ctx, mems, rep, union=False):
     """static bit-field merge on one fully walked struct path (union=True: the chosen member of a union, which lives at offset 0)"""
     init = ctx.root_init
@@ -600,6 +623,11 @@ def r054_path(be, it, ctx, mems, rep, union=False):
         ok = f is not None
         msg = 'the value stored for a bit-field is %s, not old | ((new & ((1 << bit_width) - 1)) << bit_offset)' % show(val)
         construct = 'merge-formula'
+        if f is None and _mentions_all(val, [m.fields.get('bit_width'), m.fields.get('bit_offset')]) and _has_load(val):
+            # old bytes, field width and field offset all enter the stored value, but not in the shape this rule can read (e.g. a mask written
+            # `~0UL >> (64 - w)`): the rule compares terms, it does not evaluate them, so an unknown shape gets no verdict (never a guessed one)
+            rep.undecided('R05.4', '%s:write_gvar_data:merge-formula' % U, 'the value stored for a bit-field (%s) combines the old bytes, bit_width and bit_offset in a form the rule does not recognise' % show(val), where=where)
+            continue
         if f is None:
             # the path branched on the folded initializer value itself (`eval_truth(e) ? 1 : 0`): the stored term holds a constant, the formula cannot be compared
             if _branches_on_folded_value(ctx):
